@@ -101,7 +101,11 @@ def parse_mode(txt, out_flag_txt):
     return (m.group(1)[4:], out)
 
 
+LAST_ROWS = []
+
+
 def translate(repo):
+    global LAST_ROWS
     pp = preprocess(repo)
     ops = tr_opcodes.opcodes(repo)
     # OUT_FLAG as the preprocessor expands it
@@ -143,6 +147,7 @@ def translate(repo):
         cm = re.search(r'struct insn_desc\s*\{[^}]*unsigned char op_modes\s*\[\s*(\d+)\s*\]', pp)
         cells = int(cm.group(1)) if cm else None
 
+    LAST_ROWS = rows
     errs = enum_names(pp, 'MIR_error_type_t') or []
     types = enum_names(pp, 'MIR_type_t') or []
     s = '(* GENERATED on every run by tools/tr_c15_insn_descs.py from %s (mir.c after gcc -E -P). Not committed. *)\n' % 'the current tree'
@@ -224,6 +229,7 @@ def translate(repo):
 
 
 def generate():
+    """rewrite coq/gen/InsnDescs.v (only when its text changes); returns (path, parsed rows)"""
     txt = translate(vlib.REPO)
     d = os.path.join(vlib.COQDIR, 'gen')
     os.makedirs(d, exist_ok=True)
@@ -233,7 +239,7 @@ def generate():
         with open(p + '.tmp%d' % os.getpid(), 'w') as f:
             f.write(txt)
         os.rename(p + '.tmp%d' % os.getpid(), p)
-    return p
+    return p, LAST_ROWS
 
 
 if __name__ == '__main__':
